@@ -46,6 +46,7 @@ import (
 	c05rfmt "github.com/cockroachdb/redact/internal/rfmt"
 	"hash/fnv"
 	"io"
+	"math"
 	"os"
 	"reflect"
 	"sort"
@@ -1170,6 +1171,8 @@ func c05Ops(tier int) []c05Op {
 		ops = append(ops,
 			safe(fmt.Sprintf("w.SafeString(%q)", mk+"\n"), func(w c05W) { w.SafeString(SafeString(mk + "\n")) }, mk+"\n"),
 			safe("w.SafeUint(34)", func(w c05W) { w.SafeUint(34) }, strconv.FormatUint(34, 10)),
+			safe("w.SafeUint(math.MaxUint64)", func(w c05W) { w.SafeUint(math.MaxUint64) }, strconv.FormatUint(math.MaxUint64, 10)),
+			safe("w.SafeInt(math.MinInt64)", func(w c05W) { w.SafeInt(math.MinInt64) }, strconv.FormatInt(math.MinInt64, 10)),
 			safe("w.SafeFloat(2.5)", func(w c05W) { w.SafeFloat(2.5) }, fmt.Sprint(2.5)),
 			safe("w.SafeByte('B')", func(w c05W) { w.SafeByte('B') }, "B"),
 			safe("w.SafeBytes(\"sb\")", func(w c05W) { w.SafeBytes(c05SafeBytes("sb")) }, "sb"),
